@@ -34,7 +34,8 @@ Inductive cmd :=
 | Cancel (i : idx)
 | CancelWait (i : idx)
 | CancelWait2 (i : idx)
-| Dispatch (oi : bool).
+| Dispatch (oi : bool)
+| PollOnce.                      (* Poll::do_poll(0): fetch_or(polling), timeout decision, epoll_wait, fetch_and *)
 
 Record idword := mkW { cnt : N; dl : bool; gen : N }.
 
@@ -77,7 +78,9 @@ Inductive item :=
 | IRun (e : entry)
 | IRet (e : entry)
 | IEndCb (i : idx) (u : uid)
-| ISkipSub (i : idx) (u : uid).
+| ISkipSub (i : idx) (u : uid)
+| IPollWait (full : bool)        (* decided: full timeout (true) or cut short because work is pending *)
+| IPollLeave.
 
 Inductive event :=
 | EvPost (u : uid) (tgt : tid) (k : kind) (oid : option idx)
@@ -105,7 +108,8 @@ Record mbox := mkB {
   qi : list entry;          (* m_interrupt_callbacks *)
   hasn : bool;              (* m_has_callbacks *)
   hasi : bool;              (* m_has_interrupt_callbacks *)
-  intr : bool               (* poll state has flag_interrupted (target sits in poll) *)
+  intr : bool;              (* poll state has flag_interrupted *)
+  pol : bool                (* poll state has flag_polling: the thread is inside Poll::poll *)
 }.
 
 Record cfg := mkCfg {
@@ -125,7 +129,7 @@ Inductive label :=
 | L_cc_fetch_add | L_cw_load | L_cw_wait | L_cw_cas
 | L_dl_load | L_dl_cas | L_dl_fetch_add | L_dl_fetch_and | L_dl_wload | L_dl_wwait
 | L_pc_store | L_pc_lock | L_pc_fetch_add | L_pc_fetch_sub | L_pc_skip_sub
-| L_run | L_ret | L_nop.
+| L_run | L_ret | L_nop | L_poll_enter | L_poll_wait_short | L_poll_wait_full | L_poll_leave.
 
 Fixpoint upd {A} (l : list A) (n : nat) (x : A) : list A :=
   match l, n with
@@ -151,17 +155,21 @@ Definition inc_posted (th : thread) : thread :=
 Definition set_snap (th : thread) (s : list (uid * idx)) : thread :=
   mkT (todo th) (proc th) (cur th) (nposted th) s.
 
-Definition set_intr (b : mbox) : mbox := mkB (qn b) (qi b) (hasn b) (hasi b) true.
-Definition set_hasi (b : mbox) (v : bool) : mbox := mkB (qn b) (qi b) (hasn b) v (intr b).
+(* Poll::do_interrupt: CAS(flag_polling -> flag_polling|flag_interrupted); a no-op unless the target is
+   polling and not yet interrupted *)
+Definition set_intr (b : mbox) : mbox :=
+  if pol b && negb (intr b) then mkB (qn b) (qi b) (hasn b) (hasi b) true (pol b) else b.
+Definition set_poll (b : mbox) (p i : bool) : mbox := mkB (qn b) (qi b) (hasn b) (hasi b) i p.
+Definition set_hasi (b : mbox) (v : bool) : mbox := mkB (qn b) (qi b) (hasn b) v (intr b) (pol b).
 (* the locked section of Thread::callback on the TARGET thread object; returns should_interrupt *)
 Definition push_entry (b : mbox) (k : kind) (e : entry) : mbox * bool :=
   match k with
   | KIntr =>
       let first := match qi b with [] => true | _ => false end in
-      (mkB (qn b) (qi b ++ [e]) (hasn b) (if first then true else hasi b) (intr b), first)
+      (mkB (qn b) (qi b ++ [e]) (hasn b) (if first then true else hasi b) (intr b) (pol b), first)
   | KNormal =>
       let first := match qn b with [] => true | _ => false end in
-      (mkB (qn b ++ [e]) (qi b) (if first then true else hasn b) (hasi b) (intr b), first)
+      (mkB (qn b ++ [e]) (qi b) (if first then true else hasn b) (hasi b) (intr b) (pol b), first)
   end.
 
 Definition set_threads (c : cfg) (ts : list thread) : cfg :=
@@ -211,12 +219,12 @@ Definition cw_after_load (th : thread) (i : idx) (w : idword) : item :=
 (* the locked section of process_callbacks: returns (batch, box) ; batch = [] means return *)
 Definition disp_lock (b : mbox) (oi : bool) : list entry * mbox :=
   match qi b with
-  | _ :: _ => (qi b, mkB (qn b) [] (hasn b) (hasi b) (intr b))
+  | _ :: _ => (qi b, mkB (qn b) [] (hasn b) (hasi b) (intr b) (pol b))
   | [] =>
-      if oi then ([], mkB (qn b) [] (hasn b) false (intr b))
+      if oi then ([], mkB (qn b) [] (hasn b) false (intr b) (pol b))
       else match qn b with
-        | _ :: _ => (qn b, mkB [] [] (hasn b) (hasi b) (intr b))
-        | [] => ([], mkB [] [] false false (intr b))
+        | _ :: _ => (qn b, mkB [] [] (hasn b) (hasi b) (intr b) (pol b))
+        | [] => ([], mkB [] [] false false (intr b) (pol b))
         end
   end.
 
@@ -228,6 +236,7 @@ Definition label_of_cmd (th : thread) (c : cmd) : label :=
   | CancelWait _ => L_cw_load
   | CancelWait2 i => if oidx_is (proc th) i then L_dl_load else L_cw_load
   | Dispatch _ => match cur th with Some _ => L_nop | None => L_pc_store end
+  | PollOnce => L_poll_enter
   end.
 
 Definition label_of_item (th : thread) (it : item) : label :=
@@ -252,6 +261,8 @@ Definition label_of_item (th : thread) (it : item) : label :=
   | IRet _ => L_ret
   | IEndCb _ _ => L_pc_fetch_sub
   | ISkipSub _ _ => L_pc_skip_sub
+  | IPollWait full => if full then L_poll_wait_full else L_poll_wait_short
+  | IPollLeave => L_poll_leave
   end.
 
 (* push e into the mailbox of thread tgt *)
@@ -456,6 +467,19 @@ Definition step (c : cfg) (t : tid) : option cfg :=
           | None => None
           | Some w => Some (add_log (set_thread (set_id c i (sub1 w)) t th0) [EvSkip u])
           end
+      | ICmd PollOnce =>
+          match nth_error (boxes c) t with
+          | None => None
+          | Some b =>
+              let full := negb (intr b || hasn b || hasi b) in
+              Some (set_thread (set_box c t (set_poll b true (intr b))) t (set_todo th (IPollWait full :: rest)))
+          end
+      | IPollWait _ => Some (set_thread c t (set_todo th (IPollLeave :: rest)))
+      | IPollLeave =>
+          match nth_error (boxes c) t with
+          | None => None
+          | Some b => Some (set_thread (set_box c t (set_poll b false false)) t th0)
+          end
       end
     end
   end.
@@ -468,7 +492,7 @@ Definition label_at (c : cfg) (t : tid) : option label :=
 
 Definition init_thread (p : list cmd) : thread := mkT (map ICmd p) None None 0 [].
 Definition init (progs : list (list cmd)) (nids : nat) (bds : list (list cmd)) : cfg :=
-  mkCfg (map init_thread progs) (map (fun _ => mkB [] [] false false false) progs)
+  mkCfg (map init_thread progs) (map (fun _ => mkB [] [] false false false false) progs)
         (repeat (mkW 0 false 0) nids) bds [] false [] [] [].
 
 (* a schedule step on a thread that is not enabled leaves the configuration unchanged *)
